@@ -13,6 +13,12 @@ for every start vertex, every target form and every weight mode of the plan, and
 clause by clause with an all-pairs Floyd-Warshall table computed from the *input element list* (not from the
 mesh object) in exact integer arithmetic (float + 1e-9 relative for Euclidean lengths).
 
+CALL FORMS (C09.defaults.*): the documented signatures (parameter order, defaults weights="length", export_path_mesh=False) are
+pinned in DOC_SIGNATURES, copied from the unchanged tree. On a sub-family of the meshes every query is repeated with the options
+handed over by keyword / by position / left out (each alone, both together), and every answer is judged by the same oracle under
+the documented meaning of the call (an option left out = its documented default); inspect.signature() is compared with the table
+(C09.defaults.signature: a default or an order that differs from the documented one IS the defect).
+
 Fingerprints are generalised inside a task: the input_class of a failure group (subcheck, callee, kind) is
 the conjunction of the query features (weights, number of targets, form, start inside, export, ...) that are
 constant over the failing queries but not over the executed ones, minus the features implied by the others.
@@ -33,7 +39,11 @@ RULE = ("one case = (mesh family member, coordinate alphabet, weight assignment,
         "every call of a history = all start vertices of a component in turn, then the first start again, through "
         "shortest_path only / shortest_path_to_vertex_set only / all entry points interleaved; every call is judged against the "
         "targets as built, and after EVERY call (fresh or history) the caller-supplied collections must compare equal to their "
-        "content before the call; distinct history = different (mesh, targets, form, weights mode, schedule)")
+        "content before the call; distinct history = different (mesh, targets, form, weights mode, schedule); besides, CALL FORMS: one case = (mesh, entry point, "
+        "start, targets) asked in every form of CALL_FORMS (all by keyword; options by keyword; weights by position + export by "
+        "keyword; weights left out; export_path_mesh left out with weights by position / by keyword; both left out with the "
+        "required arguments by position / by keyword) x the (weights, export) values listed there, each judged by the oracle under "
+        "the documented meaning (table DOC_SIGNATURES); non-trivial = not the query from a vertex to itself")
 ASSUMPTIONS = [
     "only connected pairs are asked: shortest_path targets lie in the start's component; vertex sets contain at "
     "least one member reachable from the start (sets with some unreachable members are asked and tagged reach=partial)",
@@ -51,6 +61,9 @@ ASSUMPTIONS = [
     "set / frozenset / dict key view as sets, a weights dict by ==, an Attribute by len, stored keys and the value of every edge "
     "id, an ArrayAttribute by len and values; ints and one-shot generators (consumed by being read) are not compared; key order "
     "of a dict is not compared",
+    "documented defaults and parameter order = table DOC_SIGNATURES in the driver, copied from the signatures of the unchanged tree "
+    "(weights='length', export_path_mesh=False for all three entry points), not read from the library at run time; a call-form "
+    "failure is reported as C09.defaults.* only if the same query with everything passed by position passes that clause",
     "a clause failing on a later call of a history is reported as C09.history.* only if the same query with fresh argument "
     "objects passes that clause (control run on the spot); otherwise it counts as the ordinary failure",
 ]
@@ -65,7 +78,11 @@ BOUNDS = {
              "set/frozenset/dict keys/list of numpy ints/numpy array + one weights object per mesh and mode, starts = whole component "
              "+ first again, targets = every subset <=2 of the component + the whole component): GRAPH(<=4) 75 lattice [p2p-only in "
              "one/dict, set-only in length/Attribute, interleaved + border-only in all 5 modes], SURF(<=4) 66, 3 of "
-             "TET(<=5), grids 3x3 tri/quad, 2x4 mixed, 4x4 tri2, every 12th holey 3x3 grid (8) [interleaved + border-only, 2 modes]",
+             "TET(<=5), grids 3x3 tri/quad, 2x4 mixed, 4x4 tri2, every 12th holey 3x3 grid (8) [interleaved + border-only, 2 modes]; "
+             "CALL FORMS (8 forms, 24 calls per query + 2 controls; queries per start: every single target as int / one-element list, whole "
+             "component, component minus start as vertex set, border; weights one/length/dict/Attribute): GRAPH(<=4) 75 generic, every "
+             "64th of GRAPH(5) (16), every 3rd of SURF(<=4) (22), 3 of TET(<=5), lifted grids 3x3 tri, 3x4 quad, 4x4 mixed; signature "
+             "table vs inspect.signature for the 3 entry points",
     "thorough": "every start vertex of: GRAPH(<=4) x {lattice,generic} FULL; GRAPH(5) 1024 lattice MID (subsets <=3, 4 modes) + "
                 "generic LIGHT; SURF(<=4) 66 lattice FULL + generic MID; SURF(5) all 2632 tri+quad lattice LIGHT, 410 triangle "
                 "complexes lattice MID + generic LIGHT; 28 six-vertex triangle classes MID; TET(<=5) 27 x {generic,lattice} MID; grids "
@@ -73,7 +90,8 @@ BOUNDS = {
                 "every graph on <=4 vertices (15751) and over {0,1} of every graph on 5 vertices (59048: whole component + every "
                 "pair as vertex set); HISTORIES as in quick with subsets <=3, all three schedules in all 5 modes on GRAPH(<=4) x "
                 "{lattice,generic} and SURF(<=4) 66; subsets <=2, 4 modes on SURF(5) 410 triangle complexes (interleaved + border-only), TET(<=5) 27, grids 2..5 x "
-                "2..5 x 4 modes, 92 holey 3x3 grids",
+                "2..5 x 4 modes, 92 holey 3x3 grids; CALL FORMS as in quick on GRAPH(<=4) x {generic,lattice}, every 8th of GRAPH(5) (128), "
+                "SURF(<=4) 66 generic, every 8th five-vertex triangle complex (52), TET(<=5) 27, lifted grids 2..4 x 2..4 x 4 modes",
 }
 
 CALL_CPU_LIMIT = 1.0      # seconds of CPU per single library call (ITIMER_VIRTUAL): a longer call is a hang
@@ -189,9 +207,43 @@ def _hist_tasks(quick):
     return out
 
 
+def _callform_tasks(quick):
+    """CALL FORMS: meshes on which every query is repeated in every documented call form (see sweep_callforms)."""
+    out = []
+    cf = lambda **k: dict({"kind": "callforms", "step": 1, "coords": "generic"}, **k)
+    if quick:
+        for lo, hi in _chunks(75, 5):
+            out.append(cf(of="graph", nmax=4, lo=lo, hi=hi))
+        for j in range(2):        # every 64th labelled graph on 5 vertices (16), dealt over two tasks
+            out.append(cf(of="graph", nmax=5, lo=75 + 64 * j, hi=1099, step=128))
+        for j in range(3):        # every 3rd member of SURF(<=4) (22), dealt over three tasks
+            out.append(cf(of="surf", family="surf<=4", lo=3 * j, hi=66, step=9))
+        out.append(cf(of="tet", lo=0, hi=27, step=13))
+        for k, l, mode in [(3, 3, "tri"), (3, 4, "quad"), (4, 4, "mixed")]:
+            out.append(cf(of="grid", k=k, l=l, mode=mode, lift=True))
+    else:
+        for coords in ("generic", "lattice"):
+            for lo, hi in _chunks(75, 5):
+                out.append(cf(of="graph", nmax=4, lo=lo, hi=hi, coords=coords))
+        for j in range(16):       # every 8th labelled graph on 5 vertices (128)
+            out.append(cf(of="graph", nmax=5, lo=75 + 8 * j, hi=1099, step=128))
+        for lo, hi in _chunks(66, 6):
+            out.append(cf(of="surf", family="surf<=4", lo=lo, hi=hi))
+        for j in range(8):        # every 8th five-vertex triangle complex (52)
+            out.append(cf(of="surf", family="surf5tri", lo=8 * j, hi=410, step=64, coords="lattice"))
+        for j in range(3):
+            out.append(cf(of="tet", lo=j, hi=27, step=3))
+        for k in (2, 3, 4):
+            for l in (2, 3, 4):
+                for mode in ("tri", "tri2", "quad", "mixed"):
+                    out.append(cf(of="grid", k=k, l=l, mode=mode, lift=True))
+    out[0]["signature"] = True
+    return out
+
+
 def tasks(tier):
     quick = tier == "quick"
-    out = [{"kind": "selftest"}] + _hist_tasks(quick)
+    out = [{"kind": "selftest"}] + _hist_tasks(quick) + _callform_tasks(quick)
     # ---- GRAPH: all labelled graphs on <= 4 vertices (75), full plan, both coordinate alphabets
     for coords in ("lattice", "generic"):
         for lo, hi in _chunks(75, 4):
@@ -402,6 +454,7 @@ class Ctx:
         self.rep = rep
         self.col = Collector()
         self.hangs = 0
+        self.forms = FormCollector()
         self.seen = set()       # coverage facts collected per call, turned into flags at the end of the task
         signal.signal(signal.SIGVTALRM, _vt_handler)
 
@@ -1000,6 +1053,224 @@ def _coords(name, n):
     return F.sphere_lattice_points(n) if name == "lattice" else F.moment_curve(n)
 
 
+# ------------------------------------------------------------------------------------------------ documented call forms
+# The documented signatures of the three entry points, copied from the unchanged tree (NOT read from the library at run
+# time: a change of a default changes the signature as well): parameters in order, defaults of the options by name.
+DOC_SIGNATURES = {
+    "shortest_path": {"params": ["mesh", "start", "targets", "weights", "export_path_mesh"],
+                      "defaults": {"weights": "length", "export_path_mesh": False}},
+    "shortest_path_to_vertex_set": {"params": ["mesh", "start", "targets", "weights", "export_path_mesh"],
+                                    "defaults": {"weights": "length", "export_path_mesh": False}},
+    "shortest_path_to_border": {"params": ["mesh", "start", "weights", "export_path_mesh"],
+                                "defaults": {"weights": "length", "export_path_mesh": False}},
+}
+CF_WEIGHTS = ["one", "length", "dict", "attr"]
+# (form, clause, fingerprint class, how the required arguments / weights / export_path_mesh are handed over ("pos" by position in
+# the documented order, "kw" by the documented name, "omit" left out), the (weights mode, export) values asked; None = left out,
+# i.e. the call must mean the documented default)
+CALL_FORMS = [
+    ("keyword:all", "keyword", "keyword:all", ("kw", "kw", "kw"), [("one", True), ("length", False), ("dict", True), ("attr", False)]),
+    ("keyword:options", "keyword", "keyword:options", ("pos", "kw", "kw"), [("one", False), ("length", True), ("dict", False), ("attr", True)]),
+    ("positional:weights", "positional", "positional:weights,keyword:export_path_mesh", ("pos", "pos", "kw"),
+     [("one", True), ("length", False), ("dict", False), ("attr", True)]),
+    ("omitted:weights", "omitted", "weights", ("pos", "omit", "kw"), [(None, False), (None, True)]),
+    ("omitted:export_path_mesh:weights_by_position", "omitted", "export_path_mesh", ("pos", "pos", "omit"), [(w, None) for w in CF_WEIGHTS]),
+    ("omitted:export_path_mesh:weights_by_keyword", "omitted", "export_path_mesh", ("pos", "kw", "omit"), [(w, None) for w in CF_WEIGHTS]),
+    ("omitted:all", "omitted", "all-omitted", ("pos", "omit", "omit"), [(None, None)]),
+    ("omitted:all:required_by_keyword", "omitted", "all-omitted", ("kw", "omit", "omit"), [(None, None)]),
+]
+CF_BASE = ("pos", "pos", "pos")          # the form of every other clause of this check: everything by position
+
+
+def _same_default(a, b):
+    return type(a) is type(b) and a == b
+
+
+def _check_signatures(ctx):
+    """The cheap guard: the documented table against inspect.signature(); a difference IS the defect."""
+    import inspect
+    rep = ctx.rep
+    for name, doc in DOC_SIGNATURES.items():
+        callee = "processing." + name
+        try:
+            params = inspect.signature(getattr(ctx.M.processing, name)).parameters
+        except (TypeError, ValueError) as e:
+            rep.violation("C09.defaults.signature", callee, "mismatch:no_signature", "any", {"error": type(e).__name__ + ": " + str(e)[:100]})
+            continue
+        names = list(params)
+        rep.evaluations += 1 + len(doc["params"])
+        rep.flag("defaults:signature:" + name)
+        if names != doc["params"]:
+            k = next((i for i, (a, b) in enumerate(zip(names, doc["params"])) if a != b), min(len(names), len(doc["params"])))
+            rep.violation("C09.defaults.signature", callee, "mismatch:parameter_order",
+                          (doc["params"] + names)[k] if k >= len(doc["params"]) else doc["params"][k],
+                          {"documented": doc["params"], "signature": names})
+        for q in doc["params"]:
+            if q not in params:
+                continue
+            got = params[q].default
+            if q in doc["defaults"]:
+                if not _same_default(got, doc["defaults"][q]):
+                    rep.violation("C09.defaults.signature", callee, "mismatch:default_value", q,
+                                  {"parameter": q, "documented_default": repr(doc["defaults"][q]),
+                                   "signature_default": "none (required)" if got is inspect.Parameter.empty else repr(got)})
+            elif got is not inspect.Parameter.empty:
+                rep.violation("C09.defaults.signature", callee, "mismatch:default_value", q,
+                              {"parameter": q, "documented_default": "none (required)", "signature_default": repr(got)})
+
+
+class FormCollector:
+    """One report per (clause, entry point, kind, class) and task, carrying the smallest counterexample."""
+
+    def __init__(self):
+        self.groups = {}
+
+    def fail(self, sub, callee, kind, cls, size_key, detail_fn):
+        g = self.groups.get((sub, callee, kind, cls))
+        if g is None:
+            g = self.groups[(sub, callee, kind, cls)] = {"count": 0, "best": None, "detail": None}
+        g["count"] += 1
+        if g["best"] is None or size_key < g["best"]:
+            g["best"] = size_key
+            g["detail"] = detail_fn()
+
+    def flush(self, rep):
+        for key in sorted(self.groups):
+            sub, callee, kind, cls = key
+            g = self.groups[key]
+            d = dict(g["detail"])
+            d["occurrences_in_task"] = g["count"]
+            rep.violation(sub, "processing." + callee, kind, cls, d)
+        self.groups = {}
+
+
+def _cf_call(ctx, mc, callee, start, form, T, wobj, export, how):
+    """One real call in the given form. Returns (outcome, text of the call)."""
+    req_how, w_how, e_how = how
+    names = DOC_SIGNATURES[callee]["params"]
+    req = [mc.mesh, start] + ([] if T is None else [_form_obj(form, T)])
+    shown = ["mesh", repr(start)] + ([] if T is None else [_ctor(form, T)])
+    args, kwargs, text = [], {}, []
+    if req_how == "pos":
+        args, text = list(req), list(shown)
+    else:
+        kwargs = dict(zip(names, req))
+        text = [f"{q}={v}" for q, v in zip(names, shown)]
+    wname, ename = names[-2], names[-1]
+    if w_how == "pos":
+        args.append(wobj); text.append("WEIGHTS" if not isinstance(wobj, str) else repr(wobj))
+    elif w_how == "kw":
+        kwargs[wname] = wobj; text.append(wname + "=" + ("WEIGHTS" if not isinstance(wobj, str) else repr(wobj)))
+    if e_how == "pos":
+        args.append(export); text.append(repr(export))
+    elif e_how == "kw":
+        kwargs[ename] = export; text.append(f"{ename}={export!r}")
+    fn = {"shortest_path": ctx.sp, "shortest_path_to_vertex_set": ctx.spv, "shortest_path_to_border": ctx.spb}[callee]
+    return ctx.gcall(fn, *args, **kwargs), f"{callee}({', '.join(text)})"
+
+
+def _cf_judge(ctx, mc, callee, out, start, T, table, export):
+    """Clause-by-clause verdict on `out` read as the answer to (weights of `table`, export): list of (clause, kind, info)."""
+    found = []
+    members = sorted(mc.border) if T is None else list(T)
+    _judge_answer(ctx, mc, callee, out, start, T, members, tuple(table[:5]) + ({},), export, None,
+                  lambda clause, kind, info: found.append((clause, kind, info)))
+    return found
+
+
+def _cf_queries(mc):
+    """(entry point, start, targets form, targets) asked in every call form: per start every single target of its component (a
+    bare int for shortest_path, a one-element list for the vertex set), the whole component, the component without the start as
+    a vertex set, the border; components of more than 5 vertices: every third vertex instead of every vertex."""
+    out = []
+    for C in sorted({tuple(c) for c in mc.comp}):
+        singles = list(C) if len(C) <= 5 else list(C[::3])
+        bord = mc.kind == "surface" and any(v in mc.border for v in C)
+        for s in C:
+            for t in singles:
+                out.append(("shortest_path", s, "int", (t,)))
+                out.append(("shortest_path_to_vertex_set", s, "list", (t,)))
+            if len(C) > 1:
+                out.append(("shortest_path", s, "list", tuple(C)))
+            others = tuple(v for v in singles if v != s)
+            if len(others) > 1:
+                out.append(("shortest_path_to_vertex_set", s, "set", others))
+            if bord:
+                out.append(("shortest_path_to_border", s, "border", None))
+    return out
+
+
+def sweep_callforms(ctx, mc):
+    """Every query of _cf_queries in every call form of CALL_FORMS: an option handed over by keyword or by position means the
+    same, an option left out means its documented default (DOC_SIGNATURES) - every answer is judged clause by clause by the
+    oracle under that meaning. A clause that fails in the same way when everything is passed by position (the form of all
+    other clauses of this check) is the ordinary failure and not reported here."""
+    rep = ctx.rep
+    customs = dict(_pattern_customs(mc, {"modes": CF_WEIGHTS}))
+    tables = {"one": mc.named_table("one"), "length": mc.named_table("length")}
+    for mode in ("dict", "attr"):
+        t = mc.custom_table(ctx, mode, customs[mode])
+        if t is None:
+            rep.count("skipped_custom_weights:mesh.edges_differs_from_element_edges")
+            return
+        tables[mode] = t
+    rep.count("callform_meshes:" + mc.kind)
+    for callee, s, form, T in _cf_queries(mc):
+        if ctx.hangs >= MAX_HANGS_PER_TASK:
+            raise Aborted()
+        doc = DOC_SIGNATURES[callee]["defaults"]
+        dw, de = doc["weights"], doc["export_path_mesh"]
+        rep.states += 1
+        if T is None or len(T) > 1 or T[0] != s:
+            rep.case(("callform", mc.kind, mc.pts, mc.elems, callee, s, T))
+        control = {}
+
+        def baseline(w, e):
+            if (w, e) not in control:
+                out, _ = _cf_call(ctx, mc, callee, s, form, T, tables[w][0], e, CF_BASE)
+                control[(w, e)] = out, {(c, k) for c, k, _ in _cf_judge(ctx, mc, callee, out, s, T, tables[w], e)}
+            return control[(w, e)]
+
+        # vacuity: would another default be noticed here? The answer to an explicit non-default value, read as the answer to the
+        # documented default, must fail some clause on at least one query per entry point and option
+        for q, alt in (("weights", ("one", de)), ("export_path_mesh", (dw, not de))):
+            out, verdict = baseline(*alt)
+            if not verdict and _cf_judge(ctx, mc, callee, out, s, T, tables[dw], de):
+                ctx.seen.add(f"defaults:detectable:{callee}:{q}")
+        for name, clause, cls, how, asked in CALL_FORMS:
+            for w, e in asked:
+                we, ee = (dw if w is None else w), (de if e is None else e)
+                table = tables[we]
+                out, text = _cf_call(ctx, mc, callee, s, form, T, table[0], ee, how)
+                rep.transitions += 1
+                rep.traces += 1
+                ctx.seen.add(f"callform:{callee}:{name}")
+                if clause == "omitted":
+                    ctx.seen.add(f"defaults:omitted:{callee}:{cls}")
+                found = _cf_judge(ctx, mc, callee, out, s, T, table, ee)
+                rep.outcome("callform:" + clause, "fails" if found else "passes")
+                if not found:
+                    continue
+                same = baseline(we, ee)[1]
+                for cl, kind, info in found:
+                    if (cl, kind) in same:
+                        rep.count("callform_failures_identical_to_failure_of_positional_call")
+                        continue
+
+                    def mk(cl=cl, info=info, text=text, we=we, ee=ee, table=table):
+                        d = mc.describe()
+                        d["call"] = text
+                        d["clause_failed"] = cl
+                        d["documented_meaning_of_the_call"] = {"weights": _wrepr(we, table[4]), "export_path_mesh": ee}
+                        if table[4] is not None:
+                            d["WEIGHTS"] = _wrepr(we, table[4])
+                            d["mesh_edges_by_id"] = mc.edge_of_id
+                        d.update(info)
+                        return d
+                    ctx.forms.fail("C09.defaults." + clause, callee, kind, cls,
+                                   (mc.n, len(mc.E), 0 if T is None else len(T), 1 if ee else 0), mk)
+
+
 # ------------------------------------------------------------------------------------------------ task kinds
 def _run_graphs(task, ctx):
     graphs = _all_graphs(task["nmax"])
@@ -1068,8 +1339,8 @@ def _run_holey(task, ctx):
         sweep_mesh(ctx, mc, task["plan"], _pattern_customs(mc, task["plan"]))
 
 
-def _run_hist(task, ctx):
-    """The meshes of the slice (same families as the sweeps), each put through sweep_history."""
+def _slice_meshes(task, ctx):
+    """The meshes of the slice task[lo:hi:step] of the family task["of"] (same families as the sweeps)."""
     of = task["of"]
     meshes = []
     if of == "graph":
@@ -1087,14 +1358,30 @@ def _run_hist(task, ctx):
                 continue
             meshes.append(("volume", pts, F.orient_cells_positive(cells, pts), f"TET({n}):{task['coords']}"))
     elif of == "grid":
-        pts, faces = F.grid(task["k"], task["l"], task["mode"], None)
-        meshes.append(("surface", pts, faces, f"grid {task['k']}x{task['l']} {task['mode']}"))
+        k, l = task["k"], task["l"]
+        z = (lambda i, j: (i * l + j) ** 2) if task.get("lift") else None
+        pts, faces = F.grid(k, l, task["mode"], z)
+        meshes.append(("surface", pts, faces, f"grid {k}x{l} {task['mode']}" + (" lifted" if task.get("lift") else "")))
     else:
         for mask, pts, faces in list(F.holey_grids(3, 3, task["mode"]))[task["lo"]:task["hi"]:task["step"]]:
             meshes.append(("surface", pts, faces, f"holey 3x3 {task['mode']} mask={mask}"))
-    for kind, pts, elems, tag in meshes:
+    return meshes
+
+
+def _run_hist(task, ctx):
+    """The meshes of the slice (same families as the sweeps), each put through sweep_history."""
+    for kind, pts, elems, tag in _slice_meshes(task, ctx):
         mc = MeshCase(ctx, kind, pts, elems, tag)
         sweep_history(ctx, mc, task["plan"], _pattern_customs(mc, task["plan"]))
+
+
+def _run_callforms(task, ctx):
+    """The meshes of the slice, each put through sweep_callforms; the first task also compares the signatures."""
+    if task.get("signature"):
+        _check_signatures(ctx)
+    for kind, pts, elems, tag in _slice_meshes(task, ctx):
+        mc = MeshCase(ctx, kind, pts, elems, tag)
+        sweep_callforms(ctx, mc)
 
 
 def _run_wgraphs(task, ctx):
@@ -1187,7 +1474,7 @@ def _run_selftest(task, ctx):
 
 
 RUNNERS = {"selftest": _run_selftest, "graph": _run_graphs, "surf": _run_surfs, "tet": _run_tets, "grid": _run_grid, "holey": _run_holey,
-           "wgraph": _run_wgraphs, "hist": _run_hist}
+           "wgraph": _run_wgraphs, "hist": _run_hist, "callforms": _run_callforms}
 
 
 def run_task(task, rep: Report):
@@ -1199,6 +1486,7 @@ def run_task(task, rep: Report):
     finally:
         signal.setitimer(signal.ITIMER_VIRTUAL, 0)
     ctx.col.flush(rep)
+    ctx.forms.flush(rep)
     for f in sorted(ctx.seen):
         rep.flag(f)
 
@@ -1270,6 +1558,25 @@ def finish(tier, rep: Report):
     for f in want_f:
         if f not in rep.flags:
             fails.append("coverage flag missing: " + f)
+    # ---- documented call forms: every entry of the table compared with the signature, exercised in every form, and every
+    # default shown to matter (the answer to another value fails the oracle under the default meaning) on some query
+    want_cf = ({"callform_meshes:polyline": 75 + 16, "callform_meshes:surface": 22 + 3, "callform_meshes:volume": 3} if quick else
+               {"callform_meshes:polyline": 150 + 128, "callform_meshes:surface": 66 + 52 + 36, "callform_meshes:volume": 27})
+    for k, v in want_cf.items():
+        if c.get(k, 0) != v:
+            fails.append(f"{k}: {c.get(k, 0)} meshes put through the call forms, expected {v}")
+    for name, doc in DOC_SIGNATURES.items():
+        want_f = ["defaults:signature:" + name] + [f"callform:{name}:{form[0]}" for form in CALL_FORMS]
+        want_f += [f"defaults:omitted:{name}:{q}" for q in list(doc["defaults"]) + ["all-omitted"]]
+        want_f += [f"defaults:detectable:{name}:{q}" for q in doc["defaults"]]
+        for f in want_f:
+            if f not in rep.flags:
+                fails.append("coverage flag missing: " + f)
+        if doc["params"][-len(doc["defaults"]):] != list(doc["defaults"]):
+            fails.append(f"table of documented signatures: the options of {name} are not its last parameters")
+    for clause in ("keyword", "positional", "omitted"):
+        if "passes" not in rep.outcomes.get("callform:" + clause, ()):
+            fails.append(f"call forms: clause {clause} never passed")
     return fails
 
 
